@@ -140,7 +140,7 @@ class SimpleOperationExecutor:
         try:
             result = self.file_comparison_result(
                 filename, file_comparison_name)
-        except FileNotFoundError:
+        except (FileNotFoundError, NotADirectoryError):
             raise FileNotFoundError(
                 'The requested file does not exist: {:s}'.format(filename))
         except IsADirectoryError:
